@@ -99,6 +99,20 @@ func openQ4(path string, hdr *headerV0) (*q4, error) {
 		return nil, err
 	}
 
+	// a Q4 file of an unexpected size is a leftover of an interrupted write. Reading from it
+	// would silently substitute tail padding for the missing shares, so refuse to use it.
+	info, err := f.Stat()
+	if err != nil {
+		f.Close()
+		return nil, fmt.Errorf("getting file info: %w", err)
+	}
+	odsSize := hdr.SquareSize() / 2
+	expectedSize := hdr.ShareSize() * odsSize * odsSize
+	if info.Size() != int64(expectedSize) {
+		f.Close()
+		return nil, fmt.Errorf("file size mismatch: expected %d, got %d", expectedSize, info.Size())
+	}
+
 	return &q4{
 		hdr:  hdr,
 		file: f,
